@@ -169,6 +169,21 @@ def impl_startup(req):
     return {"obs": [o for _, o in s.obs], "err": err, "shape_errors": s.shape_errors, "connect": s.connect_urls}
 
 
+_WORLD = None
+
+
+def _world():
+    global _WORLD
+    if _WORLD is None:
+        from harness import scen
+
+        class W(scen.WorldProp):
+            def agents(self, req):
+                return req.get("_make")
+        _WORLD = W()
+    return _WORLD
+
+
 class C20(Prop):
     id = "C20"
     lean_module = "Wheatley.Props.C20"
@@ -186,12 +201,14 @@ class C20(Prop):
                   "handlers compared after every message (size, strokes, holders, ownership for four names) with the "
                   "model and with an independent Python replay; page bodies from a generator through the real "
                   "get_load_balancing_url; real main.main start-up against the fake page and socket server. "
-                  "non-trivial = history with assignments and a size change or a leaver")
+                  "timed sessions in which Wheatley itself rings over a connection with a round trip of 40-400 ms, the view sampled every 23 ms against the messages received so far. non-trivial = history with assignments and a size change or a leaver")
 
     def cases(self, rng, tier):
         n = 250 if tier == "quick" else 3000
         for i in range(n):
             yield {"k": "tower", "msgs": rand_history(rng, rng.randint(3, 40)), "names": NAMES}
+        for i in range(n // 8):
+            yield self.ringing_case(rng)
         for i in range(120 if tier == "quick" else 1500):
             url = rng.choice(["https://rr1.ringingroom.com", "http://127.0.0.1:8080", "rr.example.org", "", "x\"y"])
             pre = rng.choice(["<html>", "<script>var a = 1;\n", "server", "server_i", "window.tower_parameters = {\n  id: 1,\n  "])
@@ -213,7 +230,50 @@ class C20(Prop):
             yield {"k": "startup", "tower_id": tid, "url": "https://ringingroom.com", "server": srv,
                    "html": '<script>window.tower_parameters = { id: %d, server_ip: "%s" };</script>' % (tid, srv)}
 
+    def ringing_case(self, rng):
+        """The view while Wheatley itself is ringing, on a connection with a real round-trip time: between the
+        moment Wheatley sends a strike and the moment the server's `s_bell_rung` for it comes back (tens to hundreds
+        of milliseconds), the view is still what the messages *received* so far imply - sampled every 23 ms."""
+        from harness import scen
+        N = rng.choice([4, 6, 6, 8])
+        humans = sorted(rng.sample(range(1, N + 1), rng.randint(0, N - 2)))
+        ps = rng.choice([90, 120])
+        I = scen.interval(ps, N)
+        t0 = 1000.3 + rng.random()
+        sc = {"start": 1000.0, "end": t0 + 3 + I * scen.blow_index(N, 1.0, rng.randint(5, 9), 0), "tower_size": N,
+              "latency": rng.choice([0.02, 0.05, 0.1, 0.2]),
+              "events": [scen.call(t0, scen.LOOK_TO)], "on_join": scen.humans_on_join(humans),
+              "bot": scen.bot_cfg({"type": "plainhunt", "stage": N, "start_row": None}, up_down_in=True),
+              "rhythm": scen.rhythm_cfg(rng.choice(["wait", "regression"]), inertia=0.5, peal_speed=ps)}
+        return {"k": "world", "scenario": sc, "humans": humans, "lag": rng.choice([0.0, 0.03])}
+
     def impl(self, req):
+        if req["k"] == "world":
+            from harness import scen
+            from wheatley.bell import Bell
+            samples = []
+
+            def make(s):
+                class Sampler:
+                    def on_strike(self, s2, t, bell, by):
+                        pass
+
+                    def tick(self, s2, t):
+                        tw = getattr(s2, "tower", None)
+                        if tw is not None:
+                            n = tw.number_of_bells
+                            strokes = [tw.get_stroke(Bell.from_number(b)) for b in range(1, n + 1)]
+                            samples.append([t, [None if x is None else bool(x.is_hand()) for x in strokes]])
+                        s2.push(t + 0.023, "internal", lambda tt: self.tick(s2, tt))
+                smp = Sampler()
+                s.push(s.now + 0.0117, "internal", lambda tt: smp.tick(s, tt))
+                return [smp, scen.Follower(s, req["humans"], lambda r, p: req["lag"])]
+            sub = dict(req, _make=make)
+            rep = _world().impl(sub)
+            req["_model_req"] = sub.get("_model_req")
+            rep["_delivered"] = [[t, m] for t, m in req["_model_req"]["events"]]
+            rep["_samples"] = samples
+            return rep
         if req["k"] == "tower":
             return impl_tower(req)
         if req["k"] == "page":
@@ -223,9 +283,14 @@ class C20(Prop):
     def to_model(self, req):
         if req["k"] == "startup":
             return None
+        if req["k"] == "world":
+            return req.pop("_model_req", None)
         return req
 
     def compare(self, req, ir, mr):
+        if req["k"] == "world":
+            from harness import scen
+            return scen.WorldProp.compare(_world(), req, {k: v for k, v in ir.items() if not k.startswith("_")}, mr)
         if req["k"] == "page":
             if (ir["fixed"] is not None and ir["fixed"] != mr["fixed"]) or ir["extract"] != mr["extract"]:
                 return f"impl={ir} model={mr}"
@@ -236,6 +301,8 @@ class C20(Prop):
         return super().compare(req, ir, mr)
 
     def tag(self, req, reply):
+        if req["k"] == "world":
+            return f"ringing:round-trip-{int(2000 * req['scenario']['latency'])}ms"
         if req["k"] == "tower":
             kinds = {m["m"] for m in req["msgs"]}
             return "tower:" + ("+size" if "size_change" in kinds else "") + ("+left" if "user_left" in kinds else "")
@@ -244,12 +311,40 @@ class C20(Prop):
         return "startup"
 
     def nontrivial(self, req, reply):
+        if req["k"] == "world":
+            return len(reply.get("_samples", [])) > 20 and len(reply.get("strikes", [])) > 8
         if req["k"] == "tower":
             kinds = {m["m"] for m in req["msgs"]}
             return "assign" in kinds and ("size_change" in kinds or "user_left" in kinds)
         return True
 
     def oracle(self, req, reply):
+        if req["k"] == "world":
+            if reply["crashed"] or reply["handler_crashes"]:
+                return f"crash: main={reply['crashed']} handlers={reply['handler_crashes']}"
+            from harness import scen
+            # the strokes the received messages imply, as a step function of time
+            steps, cur = [], None
+            for tb, m in reply["_delivered"]:
+                if m["m"] in ("bell_rung", "global_state"):
+                    cur = list(m["state"])
+                elif m["m"] == "size_change" and (cur is None or m["size"] != len(cur)):
+                    cur = [True] * m["size"]
+                else:
+                    continue
+                steps.append((scen.b2f(tb), cur))
+            for t, strokes in reply["_samples"]:
+                before = [st for (ts, st) in steps if ts < t - 1e-7]
+                upto = [st for (ts, st) in steps if ts <= t + 1e-7]
+                if not upto:
+                    continue
+                ok = [upto[-1]] + ([before[-1]] if before else [])
+                if strokes not in ok:
+                    b = next((i + 1 for i, (x, y) in enumerate(zip(strokes, upto[-1])) if x != y), None)
+                    return (f"at {t:.3f} Wheatley's view has bell {b} at {'hand' if strokes[b - 1] else 'back'}stroke "
+                            f"(view {strokes}), every message received so far says {upto[-1]}") if b else \
+                        f"at {t:.3f} the view has {len(strokes)} bells, the messages received so far {len(upto[-1])}"
+            return None
         if req["k"] == "tower":
             want = spec_view(req["msgs"])
             for i, (a, b) in enumerate(zip(reply["views"], want)):
